@@ -64,7 +64,9 @@ func (s *ScanMethod) ProcessPacketData(data []byte, _ *gopacket.CaptureInfo) err
 	if err := s.parser.DecodeLayers(data, &s.rcvDecoded); err != nil {
 		return err
 	}
-	if len(s.rcvDecoded) != 2 {
+	// exactly Ethernet followed by ARP: two layers alone are not enough,
+	// an Ethernet frame inside an Ethernet frame (ethertype 0x6558) decodes to two layers as well
+	if len(s.rcvDecoded) != 2 || s.rcvDecoded[0] != layers.LayerTypeEthernet || s.rcvDecoded[1] != layers.LayerTypeARP {
 		return nil
 	}
 	// only Ethernet/IPv4 ARP packets carry a 6-byte MAC and a 4-byte IP address
